@@ -76,7 +76,10 @@ fn frame_for<P: Protocol>(router: bool, rng: &mut impl Rng, i: usize) -> Vec<u8>
         let dst = if rng.gen_bool(0.4) { [0xff; 6] } else { mac(10 + rng.gen_range(0..4)) };
         // untagged, priority-tagged (VLAN id 0, any PCP/DEI), two VLANs
         let tci = [None, None, Some(0u16), Some(0xa000), Some(5), Some(0x6005), Some(0x0fff)][rng.gen_range(0..7)];
-        eth_frame(dst, mac(10 + i as u8), tci, &[5, 6, 7, 8])
+        // most stations stay behind their node; two roam (the same source address shows up at different nodes)
+        let src = if rng.gen_bool(0.2) { mac(30 + rng.gen_range(0..2)) } else { mac(10 + i as u8) };
+        let dst = if rng.gen_bool(0.15) { mac(30 + rng.gen_range(0..2)) } else { dst };
+        eth_frame(dst, src, tci, &[5, 6, 7, 8])
     }
 }
 
